@@ -1040,7 +1040,11 @@ def wmom(
     if inputmean is None:
         wmean = (weights * arr).sum(axis=0) / wtot
     else:
-        wmean = float(inputmean)
+        # scalar or [ndim] array; always double
+        if np.isscalar(inputmean):
+            wmean = np.float64(inputmean)
+        else:
+            wmean = np.array(inputmean, dtype=np.float64)
 
     # how should error be calculated?
     if calcerr:
